@@ -53,9 +53,12 @@ func init() {
 		Assumptions: commonAssumptions,
 	}
 	registry["C07"] = &Property{
-		Quick: []HarnessSpec{{Name: "VC07_DecodeEncodeWellFormed", Params: map[string]int{"vsymC07Max": 92}, ConcAlloc: true, MaxDecisions: 4000, MaxPaths: 60000, TimeoutSec: 400, NeedReach: []string{"wellformed", "end"}}},
-		Thorough: []HarnessSpec{{Name: "VC07_DecodeEncodeWellFormed", Params: map[string]int{"vsymC07Max": 130}, ConcAlloc: true, MaxDecisions: 8000, MaxPaths: 2000000, TimeoutSec: 3000, NeedReach: []string{"wellformed", "end"}}},
-		Bounds: []string{"well-formed streams (reference recogniser over the raw bytes) of at most 92 bytes (quick) / 130 (thorough): any number and order of X.509, SHA-256 and externally-managed lists, any owners and data"},
+		Quick: []HarnessSpec{{Name: "VC07_DecodeEncodeWellFormed", Params: map[string]int{"vsymC07Max": 92}, ConcAlloc: true, MaxDecisions: 4000, MaxPaths: 60000, TimeoutSec: 400, NeedReach: []string{"wellformed", "end"}},
+			{Name: "VC07_BuiltRoundTrip", Params: map[string]int{"vsymC09Lists": 2, "vsymC09Entries": 2}, ConcAlloc: true, MaxPaths: 3000000, TimeoutSec: 400, NeedReach: []string{"end"}}},
+		Thorough: []HarnessSpec{{Name: "VC07_DecodeEncodeWellFormed", Params: map[string]int{"vsymC07Max": 130}, ConcAlloc: true, MaxDecisions: 8000, MaxPaths: 2000000, TimeoutSec: 3000, NeedReach: []string{"wellformed", "end"}},
+			{Name: "VC07_BuiltRoundTrip", Params: map[string]int{"vsymC09Lists": 3, "vsymC09Entries": 2}, ConcAlloc: true, MaxPaths: 3000000, TimeoutSec: 3000, NeedReach: []string{"end"}}},
+		Bounds: []string{"well-formed streams (reference recogniser over the raw bytes) of at most 92 bytes (quick) / 130 (thorough): any number and order of X.509, SHA-256 and externally-managed lists, any owners and data",
+			"converse: a database satisfying the representation invariant (C09 shapes: 0..2 lists x 1..2 entries quick, 0..3 x 1..2 thorough) after one Append (raw or PEM) or Remove with symbolic arguments encodes to a stream that decodes to an equal database and re-encodes identically"},
 		Outside: []string{"streams longer than the bound, e.g. real certificates (the codec copies data verbatim; only sizes matter)"},
 		Assumptions: commonAssumptions,
 	}
@@ -184,19 +187,44 @@ func init() {
 		Assumptions: commonAssumptions,
 	}
 	registry["C12"] = &Property{
-		Quick:    []HarnessSpec{{Name: "VC12_PlainRegister", Params: map[string]int{"vsymC12Max": 8}, MaxPaths: 200000, NeedReach: []string{"end"}}},
-		Thorough: []HarnessSpec{{Name: "VC12_PlainRegister", Params: map[string]int{"vsymC12Max": 40}, MaxPaths: 2000000, TimeoutSec: 3000, NeedReach: []string{"end"}}},
-		Bounds: []string{"inductive step on the in-memory store (real afero.MemMapFs interpreted): variable A holds an arbitrary previous value, variable B an arbitrary value; one plain WriteVar of a value of any length 0..8 (quick) / 0..40 bytes (all length combinations case-split, contents symbolic); read of A returns exactly the new value, B unchanged"},
-		Outside: []string{"signed updates through WriteSignedUpdate (need the PKCS#7 model)", "APPEND_WRITE", "values longer than the bound"},
+		Quick: []HarnessSpec{{Name: "VC12_PlainRegister", Params: map[string]int{"vsymC12Max": 8}, MaxPaths: 200000, NeedReach: []string{"end"}},
+			{Name: "VC12_SignedRegister", Params: map[string]int{"vsymC12Max": 6}, ConcAlloc: true, MaxPaths: 200000, NeedReach: []string{"end"}}},
+		Thorough: []HarnessSpec{{Name: "VC12_PlainRegister", Params: map[string]int{"vsymC12Max": 40}, MaxPaths: 2000000, TimeoutSec: 3000, NeedReach: []string{"end"}},
+			{Name: "VC12_SignedRegister", Params: map[string]int{"vsymC12Max": 100}, ConcAlloc: true, MaxPaths: 2000000, TimeoutSec: 3000, NeedReach: []string{"end"}}},
+		Bounds: []string{"inductive step on the in-memory store (real afero.MemMapFs interpreted): variable A holds an arbitrary previous value, variable B an arbitrary value; one plain WriteVar of a value of any length 0..8 (quick) / 0..40 bytes (all length combinations case-split, contents symbolic); read of A returns exactly the new value, B unchanged",
+			"signed step: PK / KEK / db / dbx holding an arbitrary previous value (0..6 bytes quick / 0..100); one WriteSignedUpdate (real SignEFIVariable and SignPKCS7 under the signature model) of a database with 0, 1 or 2 SHA-256 entries (symbolic); the typed read returns the payload with the descriptor removed"},
+		Outside: []string{"APPEND_WRITE", "values longer than the bound", "signed payloads other than databases of 0..2 SHA-256 entries"},
 		Assumptions: commonAssumptions,
 	}
 	registry["C15"] = &Property{
 		Quick: []HarnessSpec{
 			{Name: "VC15_WriteFaults", Params: map[string]int{"vsymC11Name": 2, "vsymC11Value": 4096}, NeedReach: []string{"end", "faulted", "clean"}},
 			{Name: "VC15_ReadFaults", Params: map[string]int{"vsymC11Name": 2, "vsymC11Value": 4096}, NeedReach: []string{"end", "faulted"}},
+			{Name: "VC15_SignerFault", NeedReach: []string{"end", "failed", "signed"}},
+			{Name: "VC15_SignedUpdateFaults", Params: map[string]int{"vsymC11Name": 2}, NeedReach: []string{"end", "signer-failed", "ok"}},
+			{Name: "VC15_ImageSignFault", NeedReach: []string{"end", "signer-failed", "signed"}},
+			{Name: "VC15_ImageReaderFault", NeedReach: []string{"end", "faulted", "clean"}},
 		},
-		Bounds: []string{"write variable: every position of the call sequence OpenFile / Write / Close may fail (symbolic fault bits, all combinations), and Write may be short by any symbolic count; read variable: Open / Stat / every Read may fail", "asserted: any injected fault => non-nil error, nothing decoded after a failed read"},
-		Outside: []string{"signer failures, image reader failures and signed updates (need the PKCS#7 model)", "a failing Close after a complete read is not asserted (it does not invalidate the data read)"},
+		Bounds: []string{"write variable: every position of the call sequence OpenFile / Write / Close may fail (symbolic fault bits, all combinations), and Write may be short by any symbolic count; read variable: Open / Stat / every Read may fail", "asserted: any injected fault => non-nil error, nothing decoded after a failed read",
+			"signer: Sign may fail (symbolic fault bit) in SignPKCS7 (3 content types), in PECOFFBinary.Sign on the shipped test image (error, no signature returned, Signatures() and Bytes() unchanged) and in WriteSignedUpdate combined with all file-system faults (failed signing writes nothing)",
+			"image reader: every one of the ReadAt calls Parse issues on the shipped test image may fail: error and no parsed object"},
+		Outside: []string{"reader failures during Hash / Verify of an already parsed image (Parse reads the whole file; later operations read from memory)", "a failing Close after a complete read is not asserted (it does not invalidate the data read)", "images other than the shipped unsigned test image for the image-level fault harnesses (the image is concrete there; the fault positions are symbolic)"},
 		Assumptions: commonAssumptions,
+	}
+	registry["C05"] = &Property{
+		Quick:    []HarnessSpec{{Name: "VC05_DERvsReference", Params: map[string]int{"vsymC05Content": 140, "vsymC05Serial": 2, "vsymC05RawLens": 2}, MaxDecisions: 2000, MaxPaths: 400000, TimeoutSec: 400, NeedReach: []string{"end"}}},
+		Thorough: []HarnessSpec{{Name: "VC05_DERvsReference", Params: map[string]int{"vsymC05Content": 700, "vsymC05Serial": 4, "vsymC05RawLens": 3}, MaxDecisions: 4000, MaxPaths: 4000000, TimeoutSec: 7200, NeedReach: []string{"end"}}},
+		Bounds: []string{"content: every length 0..140 (quick) / 0..700 (thorough), bytes symbolic; content types data, SpcIndirectDataContent, 1.2.3.4; certificate bytes of 5/140 (+300 thorough) symbolic bytes; issuer 3 symbolic bytes (copied verbatim); serial magnitudes of 1, 2 (+8, 20 thorough) symbolic bytes incl. high bit set; clock symbolic (2001..2049)",
+			"oracle: reference RFC 2315 / X.690 encoder written in the harness (minimal definite lengths, INTEGER with sign octet, attribute SET = contentType, signingTime, messageDigest = SHA-256(content), signature = Sign(key, SHA-256(SET))): output compared byte for byte"},
+		Outside: []string{"that OpenSSL / other implementations agree with this reading of RFC 2315 (they are not Go code the engine can execute)", "contents longer than the bound (all DER length classes up to 0x82 are inside the thorough bound)", "RSA key sizes other than 2048 (the signature is an opaque 256-byte string in the model)", "clock in 2050 or later: the attribute encoder panics (UTCTime range) — assumed away, see DESIGN.md"},
+		Assumptions: append([]string{"signature model: Sign(key, digest) is deterministic and injective per key; SHA-256 as in C01", "time model: calendar fields are uninterpreted functions of the instant, years 1950..2049"}, commonAssumptions...),
+	}
+	registry["C06"] = &Property{
+		Quick:    []HarnessSpec{{Name: "VC06_SignedUpdateLayout", Params: map[string]int{"vsymC06Name": 3, "vsymC06Payload": 40}, MaxDecisions: 2000, NeedReach: []string{"end"}}},
+		Thorough: []HarnessSpec{{Name: "VC06_SignedUpdateLayout", Params: map[string]int{"vsymC06Name": 8, "vsymC06Payload": 300}, MaxDecisions: 4000, MaxPaths: 400000, TimeoutSec: 3000, NeedReach: []string{"end"}}},
+		Bounds: []string{"name: 3 (quick) / 8 symbolic printable ASCII characters; GUID: all 2^128; attribute mask: all 2^32 (APPEND_WRITE on and off); payload: every length 0..40 (quick) / 0..300, bytes symbolic; clock symbolic; process time zone symbolic (UTC-12..UTC+14, whole hours)",
+			"decided: output = 16-byte timestamp (UTC calendar fields of the clock, other fields zero) || dwLength=24+len(SignedData), revision 0x0200, type 0x0EF1, PKCS7 type GUID in wire order || bare detached SignedData equal byte for byte to the reference encoding over UTF-16LE(name)||GUID||attrs||timestamp||payload || payload"},
+		Outside: []string{"non-ASCII names", "acceptance by real firmware", "payload kinds beyond raw bytes (a database payload is its encoding, C07)"},
+		Assumptions: append([]string{"signature, hash and time models as in C05; native replays run with TZ set from the model (Etc/GMT±h)"}, commonAssumptions...),
 	}
 }
